@@ -47,6 +47,15 @@ def encode (c : Codec) (p : Pkt) : Bytes :=
 
 def encodeAll (c : Codec) (ps : List Pkt) : Bytes := (ps.map (encode c)).flatten
 
+/-- The individual `writer.Write` calls of `WritePacket` (type byte, length field,
+body).  On a message transport (WebSocket) each call is one message, i.e. one
+chunk on the reading side, so none of them may be empty: an empty body is not written. -/
+def writeCalls (c : Codec) (p : Pkt) : List Bytes :=
+  let t := wireType p
+  if packet.Type.IsHeartbeat t then [[UInt8.ofNat t]]
+  else if (wireBody c p).isEmpty then [[UInt8.ofNat t], be32 (wireBody c p).length]
+  else [[UInt8.ofNat t], be32 (wireBody c p).length, wireBody c p]
+
 /-- Stage at which `ReadPacket` failed. -/
 inductive RErr where
   | type        -- error/EOF while reading the type byte
